@@ -87,6 +87,7 @@ type Txn struct {
 	columns []columnCache    // The column mapping
 	logger  commit.Logger    // The optional commit logger
 	inserts []uint32         // The offsets reserved by inserts, released on rollback
+	replay  bool             // Whether the transaction replays a commit of a single chunk
 	reader  *commit.Reader   // The commit reader to re-use
 }
 
@@ -106,6 +107,7 @@ func (txn *Txn) reset() {
 	txn.columns = txn.columns[:0]
 	txn.updates = txn.updates[:0]
 	txn.inserts = txn.inserts[:0]
+	txn.replay = false
 }
 
 // bufferFor loads or creates a buffer for a given column.
@@ -529,6 +531,9 @@ func (txn *Txn) commit() {
 
 	// Mark the dirty chunks from the updates
 	for _, u := range txn.updates {
+		if txn.replay {
+			break // a replayed commit applies to its own chunk only, already marked
+		}
 		u.RangeChunks(func(chunk commit.Chunk) {
 			txn.dirty.Set(uint32(chunk))
 		})
